@@ -39,6 +39,12 @@ def gen_cases(tier, seed):
         if q < 0.04:
             out.append({"seed": s, "mode": "observer_fault", "members": r.choice([1, 2, 3]), "compose": r.choice(["tuple", "flat", "nested"]), "W": 1, "sched": "default", "n": 2})
             continue
+        if q < 0.07:
+            # the operating system refuses a new thread / the caller is interrupted inside Thread.start(): run must still end and leave nothing behind
+            out.append({"seed": s, "mode": "thread_start_fault", "n": r.randint(1, 12), "W": r.choice([1, 2, 3, 4, 8]), "sched": r.choice(["default", "random"]),
+                        "k": r.choice([1, 1, 2, 3, 5]), "kind": r.choice(["refused", "refused", "kbi_after_start", "kbi_before_start"]),
+                        "cfg": {"out": r.choice(["all", "sinks"])}})
+            continue
         if q < 0.16:
             # registry runs in which a store operation or modified-time query (of a stored call, a source or a registered literal) raises
             out.append({"seed": s, "mode": "registry_fault", "n": r.randint(2, 16), "W": r.choice([1, 2, 4, 8]), "sched": r.choice(["default", "random"]),
@@ -98,6 +104,68 @@ def run_observer_fault(desc):
     res = {"status": "ok", "counters": {"observer_fault_runs": 1}, "nontrivial": True, "sig": f"obsfault|{info}"}
     if bad:
         res.update(status="violation", detail=f"[failing observer next to a bundled display: {info}] {bad}", mechanism="leftover-activity", witness=info, taint=True)
+    return res
+
+
+def run_thread_start_fault(desc):
+    """threading.Thread.start fails for the k-th thread run starts: RuntimeError("can't start new thread") before the thread exists, or a
+    KeyboardInterrupt delivered inside start() before / after the OS thread is running. Whatever run raises, it must return, no plan
+    function may still be executing or start later, and every thread it created must exit."""
+    import uberjob
+
+    real_start = threading.Thread.start
+    state = {"n": 0, "fired": False}
+    main = threading.get_ident()
+    W = Watch(desc)
+
+    def start(self_):
+        if threading.get_ident() == main and self_ is not W.drv.thread:
+            state["n"] += 1
+            if state["n"] == desc["k"] and not state["fired"]:
+                state["fired"] = True
+                if desc["kind"] == "refused":
+                    raise RuntimeError("can't start new thread")
+                if desc["kind"] == "kbi_before_start":
+                    raise KeyboardInterrupt("interrupt inside Thread.start, before the thread runs")
+                real_start(self_)
+                raise KeyboardInterrupt("interrupt inside Thread.start, after the thread is running")
+        return real_start(self_)
+
+    holder = {}
+    with W:
+        threading.Thread.start = start
+        try:
+            R = plainrun.execute(desc, record_args=False, hang_watch=False, pre=lambda nid, att: time.sleep(0.001))
+        finally:
+            threading.Thread.start = real_start
+    H = R.H
+    bad = None
+    if R.in_flight_at_return:
+        bad = f"{R.in_flight_at_return} of the plan's functions still executing when run returned/raised"
+    else:
+        leaked = [t for t in R.leaked if t.is_alive()]
+        deadline = time.monotonic() + 5
+        while leaked and time.monotonic() < deadline:
+            # a thread parked for ever in an untimed wait never exits; one that is still finishing does
+            probes = [quiesce.probe(t.native_id) for t in leaked if t.native_id]
+            time.sleep(0.02)
+            if probes and all(p[0] for p in probes) and probes == [quiesce.probe(t.native_id) for t in leaked if t.native_id]:
+                break
+            leaked = [t for t in leaked if t.is_alive()]
+        if leaked:
+            bad = f"thread(s) created by run still alive after it returned/raised ({R.exc!r}): {[t.name for t in leaked]}; events after return: {H.seq - R.seq_at_return}"
+        elif H.seq != R.seq_at_return:
+            bad = f"{H.seq - R.seq_at_return} event(s) were stamped after run returned/raised"
+    if bad is None and state["fired"] and R.exc is None and desc["kind"] != "refused":
+        bad = "a KeyboardInterrupt raised inside Thread.start was swallowed: run returned normally"
+    res = {"status": "ok", "counters": {"thread_start_fault_runs": 1, "thread_start_faults_fired": int(state["fired"]), "thread_census_checks": 1},
+           "sets": {"thread_start_fault_outcomes": [f"{desc['kind']}->{type(R.exc).__name__}"]}, "nontrivial": state["fired"],
+           "sig": hashlib.sha1(("\n".join(R.ir.describe(60)) + f"|tsf|{desc['W']}|{desc['k']}|{desc['kind']}").encode()).hexdigest()[:16]}
+    if bad:
+        res.update(status="violation", detail=f"[Thread.start #{desc['k']} {desc['kind']}, W={desc['W']}] {bad}", mechanism="leftover-activity", taint=True,
+                   witness={"plan": R.ir.describe(60), "history": H.compact_history(200)})
+    if W.drv.error:
+        return {"status": "inconclusive", "detail": "deadlock watch error: " + W.drv.error}
     return res
 
 
@@ -166,6 +234,8 @@ def run_case(desc):
         return run_observer_fault(desc)
     if desc["mode"] == "registry_fault":
         return run_registry_fault(desc)
+    if desc["mode"] == "thread_start_fault":
+        return run_thread_start_fault(desc)
     usable = quiesce.available()
     W = Watch(desc)
     with W:
@@ -304,6 +374,8 @@ def finalize(agg, tier):
         reasons.append("fewer than 20 cyclic plans with the cycle among examined nodes")
     if c["registry_faults_fired"] < 30:
         reasons.append("fewer than 30 registry runs with a store fault")
+    if c["thread_start_faults_fired"] < 15:
+        reasons.append("fewer than 15 runs with a failing Thread.start")
     if c["observer_fault_runs"] < 10:
         reasons.append("fewer than 10 runs with a failing observer next to a bundled display")
     if c["runs_all_calls_fail"] < 20:
